@@ -547,7 +547,7 @@ PROPS = {
     "C17": {
         "rules": [lambda prog, tier: buf.run(prog),
                   lambda prog, tier: idx.run(prog), lambda prog, tier: idx.run_pubstruct(prog), lambda prog, tier: optptr.run(prog),
-                  lambda prog, tier: colen.run(prog), lambda prog, tier: pastcol.run(prog), lambda prog, tier: twopass.run(prog), lambda prog, tier: growguard.run(prog), lambda prog, tier: negidx.run(prog),
+                  lambda prog, tier: colen.run(prog), lambda prog, tier: pastcol.run(prog), lambda prog, tier: twopass.run(prog), lambda prog, tier: growguard.run(prog), lambda prog, tier: growguard.run_capsync(prog), lambda prog, tier: negidx.run(prog),
                   lambda prog, tier: idxclass.run(prog),
                   lambda prog, tier: lenclass.run(prog),
                   lambda prog, tier: lenclass.run_capacity(prog),
@@ -873,6 +873,10 @@ _ADD.setdefault("C09", {})
 _ADD["C09"]["explanation"] = _ADD["C09"].get("explanation", "") + (
     " (R-RANGEALLOC) the constant 'R' is stored into ILLlpdata::sense only over paths on which ILLlpdata::rangeval has been allocated or seen "
     "non-NULL: the writers emit the range of a ranged row only when the array exists.")
+_ADD.setdefault("C17", {})
+_ADD["C17"]["explanation"] = _ADD["C17"].get("explanation", "") + (
+    " (R-CAPSYNC) a pointer field that is paired with a capacity field (some function allocates it with a computed length and stores that very "
+    "length into the capacity field) gets a new block only with that capacity as length, or with a length the function also stores into it.")
 _ADD.setdefault("C17", {})
 _ADD["C17"]["explanation"] = _ADD["C17"].get("explanation", "") + (
     " (R-PUBSTRUCT) a caller-supplied array of a public function is not subscripted inside a loop whose bound is a dimension of the internal "
